@@ -261,9 +261,12 @@ Section Ideal.
     { apply N.ltb_ge. unfold blen, MIN_TOKEN_LEN. cbn [length]. rewrite app_length, Hn. specialize (Hl key aad nonce p). lia. }
     rewrite E. rewrite N.eqb_refl. cbn [negb].
     unfold slice, VERSION_LEN, NONCE_LEN. change (N.to_nat (1 + 24 - 1)) with 24%nat. change (N.to_nat 1) with 1%nat.
-    change (N.to_nat (1 + 24)) with 25%nat. cbn [skipn].
+    change (N.to_nat (1 + 24)) with 25%nat.
+    set (body := aead_seal key aad nonce p).
+    change (skipn 1 (TOKEN_VERSION :: nonce ++ body)) with (nonce ++ body).
+    change (skipn 25 (TOKEN_VERSION :: nonce ++ body)) with (skipn 24 (nonce ++ body)).
     rewrite (firstn_app_exact' 24 nonce _ Hn).
-    change 25%nat with (S 24). cbn [skipn]. rewrite (skipn_app_exact' 24 nonce _ Hn). apply Hc.
+    rewrite (skipn_app_exact' 24 nonce _ Hn). apply Hc.
   Qed.
 
   Lemma resolve_resume_inv : forall w reg now i hdr sid reg',
